@@ -457,6 +457,77 @@ Proof.
 Qed.
 
 
+(* ------------------------------------------------------------------------------------------
+   Part E.  The size of the SECOND file is derived from the first (Proofs/SaveSizeProofs.v).
+   The document that comes back from load (save xt d) is written in at most [slack xt] more bytes than d itself:
+   0 for the cross-reference table format, 16 for the cross-reference stream format (the new cross-reference
+   stream has the number max_id + 2 instead of max_id + 1: one more digit at most; Size one more digit at most;
+   the Index array at most one more sub-section, 14 bytes at most).  Normal forms are never written longer
+   (an integral real comes back as the integer it denotes; integers and reals are in the same separator classes),
+   the cross-reference part has the same sub-sections with the same numbers of fixed-width entries, and the
+   decimal spelling of a smaller number is not longer.
+   So C01_full's hypothesis [small_file xt (reloaded xt d)] follows from [small_file_slack xt d]:
+   |save xt d| + slack xt < 2^32 -- a hypothesis on the ORIGINAL document only.
+   ------------------------------------------------------------------------------------------ *)
+From LV Require Import Proofs.SaveSizeProofs.
+
+(* (18) a normal form is never written longer, and needs the same separators *)
+Theorem C01_normal_form_not_longer :
+  forall o, obj_wf o ->
+    (length (write_object (norm_obj o)) <= length (write_object o))%nat /\
+    need_separator (norm_obj o) = need_separator o /\ need_end_separator (norm_obj o) = need_end_separator o.
+Proof. intros o H. split; [exact (write_norm_le o H)|]. split; [apply need_sep_norm | apply need_end_sep_norm]. Qed.
+
+(* (19) the second file against the first, either format *)
+Theorem C01_second_file_size :
+  forall xt d, savable_enc d -> cycles_fit xt d ->
+    (length (so_bytes (save xt (reloaded xt d))) <= length (so_bytes (save xt d)) + slack xt)%nat /\
+    slack XTable = 0%nat /\ slack XStream = 16%nat.
+Proof. intros xt d S H. split; [exact (second_file_le xt d S H)|]. split; reflexivity. Qed.
+
+Theorem C01_small_file_second :
+  forall xt d, savable_enc d -> cycles_fit xt d -> small_file_slack xt d -> small_file xt d /\ small_file xt (reloaded xt d).
+Proof. intros xt d S H Hs. split; [exact (small_file_of_slack xt d Hs) | exact (small_file_second xt d S H Hs)]. Qed.
+
+(* (20) C01_full with the single size hypothesis on the FIRST file: both cycles are conclusions *)
+Theorem C01_full_slack :
+  forall xt d, savable d -> known_deep d = false -> small_file_slack xt d -> cycles_fit xt d ->
+    load (so_bytes (save xt d)) = LOk (reloaded xt d) (xtype_of xt) /\
+    same_doc d (reloaded xt d) /\
+    load (so_bytes (save xt (reloaded xt d))) = LOk (reloaded xt (reloaded xt d)) (xtype_of xt) /\
+    same_doc (reloaded xt d) (reloaded xt (reloaded xt d)) /\
+    same_doc d (reloaded xt (reloaded xt d)).
+Proof. exact load_save_full_slack. Qed.
+
+(* the same on the wider domain (Encrypt allowed), for the reader with the Encrypt branch *)
+Theorem C01_full_encx_slack :
+  forall decompress can_decompress (R : Type) (ret : lres -> R) (after : Xref.xmap -> doc -> xtype -> R) xt d,
+    savable_enc d -> known_deep d = false -> small_file_slack xt d -> cycles_fit xt d ->
+    (exists x : Save.xmap, Forall normal_ok x /\
+       load_encx decompress can_decompress R ret after (so_bytes (save xt d)) =
+       if dict_has (d_trailer d) Save.K_Encrypt then after (conv_map x) (reloaded xt d) (xtype_of xt)
+       else ret (LOk (reloaded xt d) (xtype_of xt))) /\
+    same_doc d (reloaded xt d) /\
+    (exists x : Save.xmap, Forall normal_ok x /\
+       load_encx decompress can_decompress R ret after (so_bytes (save xt (reloaded xt d))) =
+       if dict_has (d_trailer (reloaded xt d)) Save.K_Encrypt
+       then after (conv_map x) (reloaded xt (reloaded xt d)) (xtype_of xt)
+       else ret (LOk (reloaded xt (reloaded xt d)) (xtype_of xt))) /\
+    same_doc (reloaded xt d) (reloaded xt (reloaded xt d)) /\
+    same_doc d (reloaded xt (reloaded xt d)).
+Proof. exact load_save_enc_slack. Qed.
+
+(* non-vacuity: the example documents meet the slack hypothesis in both formats; the stream-format file written from
+   the reloaded ex_low IS longer than the first one (242 against 238 bytes: the Index array gets a second
+   sub-section), so a slack is needed in that format *)
+Theorem C01_example_slack :
+  small_file_slack XTable ex_doc /\ small_file_slack XStream ex_doc /\
+  small_file_slack XTable ex_low /\ small_file_slack XStream ex_low /\
+  (length (so_bytes (save XTable (reloaded XTable ex_doc))) <= length (so_bytes (save XTable ex_doc)))%nat /\
+  (length (so_bytes (save XStream (reloaded XStream ex_doc))) <= length (so_bytes (save XStream ex_doc)) + 16)%nat /\
+  length (so_bytes (save XStream ex_low)) = 238%nat /\ length (so_bytes (save XStream (reloaded XStream ex_low))) = 242%nat.
+Proof. repeat split; vm_compute; try reflexivity; try lia. Qed.
+
 Print Assumptions C01_offsets_sound.
 Print Assumptions C01_offsets_complete.
 Print Assumptions C01_startxref_exact.
@@ -488,3 +559,9 @@ Print Assumptions C01_full_encx.
 Print Assumptions C01_full_enc.
 Print Assumptions C01_savable_enc_iff.
 Print Assumptions C01_example_enc.
+Print Assumptions C01_normal_form_not_longer.
+Print Assumptions C01_second_file_size.
+Print Assumptions C01_small_file_second.
+Print Assumptions C01_full_slack.
+Print Assumptions C01_full_encx_slack.
+Print Assumptions C01_example_slack.
